@@ -3,6 +3,7 @@ import Autog.Lemmas.DfsHasCycles
 import Autog.Lemmas.GreedyAssignedOnce
 import Autog.Lemmas.NsInitLayersKahn
 import Autog.Lemmas.ComponentsDfs
+import Autog.Lemmas.HasCyclesTotal
 /-! # C01 — Layout always returns
 
     PARTIAL. In the composed model `layoutModel` (Autog/Model/Pipeline.lean) every explicit `panic` of the modelled code, every
@@ -13,6 +14,10 @@ import Autog.Lemmas.ComponentsDfs
     * phases with no error site at all: `C01_valign_packright_total`, `C01_collect_total` (pure functions), `C01_assignY_total`;
     * `C01_longestpath_layers_nonneg` + `C01_layers_total`: after LongestPath every layer index is ≥ 0, so the layer-list construction
       cannot index out of range (the D5 failure mode) — for every graph state;
+    * `C01_cycle_test_total`: the model's cycle test (run twice in every phase 1) NEVER runs out of fuel and never fails, on every graph
+      state whose out-lists point into the node store (`EdgesWF`, a decidable contract evaluated on every traced run as `K:edgesWF`):
+      with a weight of out-degree + 2 per node that is neither finished nor on the stack and todo + 1 per frame, every step of the
+      machine lowers the measure (`run_no_fuelOut`), which starts below the model's budget 2·E + 2·V + 4;
     * on the machines the models run: the cycle test is complete (`C01_hasCycles_complete`), the greedy breaker ranks every node
       exactly once for every pick oracle (`C01_greedy_assigns_every_node_once`), Kahn initialisation processes every node of a DAG
       (`C01_ns_init_processes_every_node`), the component DFS closes (`C01_components_closed_connected`).
@@ -73,6 +78,9 @@ theorem C01_layers_total (g : G) (h : ∀ n ∈ g.nodeIds, 0 ≤ g.layerOf n) : 
     have := h n hn
     simp; omega
   simp [this, bind, Except.bind, pure, Except.pure]
+
+theorem C01_cycle_test_total : type_of% @hasCycles_total := @hasCycles_total
+theorem C01_cycle_machine_never_out_of_fuel : type_of% @DfsHasCyclesSound.run_no_fuelOut := @DfsHasCyclesSound.run_no_fuelOut
 
 theorem C01_hasCycles_complete : type_of% @DfsHasCycles.run_done := @DfsHasCycles.run_done
 theorem C01_greedy_assigns_every_node_once : type_of% @GreedyAssignedOnce.all_assigned_once := @GreedyAssignedOnce.all_assigned_once
